@@ -7,6 +7,16 @@ from checkcfg import PROPS
 BASELINE = json.load(open('/root/.vp/BASELINE.json'))['cmd'] if os.path.exists('/root/.vp/BASELINE.json') else ''
 
 TEXT = {
+ "C04": dict(
+   technique="stateful property-based testing (rapid state machine) across several wallet instances; oracle = independent BIP-39/BIP-32 derivation + cross-instance differential + ECDSA verification of signatures under the address keys",
+   text="Up to 3 fresh wallet instances (own LevelDB directories, one simulated node) run generated sequences of create (random entropy), import-mnemonic (generated entropy of the five sizes, leading-zero bias, index hints), new addresses of both classes, export + import-keystore elsewhere, restart, public-passphrase change (keystore level) and remove. After every step the wallet id and the address at every index are compared with the harness's own derivation m/44'/coin'/1'/0/i from (mnemonic, passphrase) through the independent references - hence with each other across instances - and SignHash for every issued address (right after issuing from public-only material, after restart, after import) must verify under exactly the public key that address commits to. Exploration: sampled sequences.",
+   note="Wallets whose path crosses the C14 known finding (short m/44' or m/44'/coin' scalar) are excluded (counted as excluded_known) so that finding is not double-counted. Private-passphrase change is not exercised (its API is disabled in the repository and it would change the mnemonic-to-seed mapping).",
+   ref="DESIGN.md §3 C04"),
+ "C05": dict(
+   technique="stateful property-based testing (rapid state machine) with an interposed database that records every byte written; oracle = substring scan for every secret known from the harness's own derivation + passphrase accept/refuse table + commit counting",
+   text="The C04 state machine with secret-needing operations (sign-hash, export, reveal mnemonic, remove wallet) under the right passphrase and generated wrong ones (edit distance 1, prefix, case, another wallet's, the public passphrase, empty, over-long, arbitrary bytes), also while keys are still unlocked, interleaved with restarts, public-passphrase changes and re-imports. Every secret the harness derives itself (mnemonic sentence and every 4-word window, entropy, seed, master/purpose/coin/account/branch xprv strings and scalars, per-address private scalars, both passphrases; raw, hex, HEX, base58) is searched in every key and value ever written through the interposed database, in the final LevelDB entries and raw files of every instance, in all exported JSON and in every error text. Wrong passphrase: passphrase error and zero database commits; right passphrase: success - before and after refused attempts, restarts, public-passphrase changes. Exploration: sampled sequences (hundreds of thousands of byte strings scanned per run).",
+   note="Trusted: goleveldb for the final scan. The scan finds verbatim / hex / base58 occurrences; an encoding of a secret under some other reversible transformation would not be found. Memory (zeroing after use) is not observable with this technique and is not claimed.",
+   ref="DESIGN.md §3 C05"),
  "C02": dict(
    technique="property-based testing (rapid): generated UTXO sets x request sequences; oracle = validity predicate over the decoded transaction + success/failure regions (many correct outputs exist, so a predicate rather than one expected transaction)",
    text="Wallet coin sets are produced by generated chains (fan-out transactions with amounts {1,2,5}x10^k incl. dust-sized and repeated amounts, coins larger than any target, immature coinbase, staking/binding deposits, coins spent by pending transactions, another wallet's coins; in thorough occasionally more than the 649-coin selection cap). Sequences of 1..6 create calls (AutoCreateRawTransaction, EstimateTxFee, CreateStakingTransaction, CreateBindingTransaction, CreateRawTransaction with explicit inputs incl. foreign / unknown / duplicate ones) draw output maps, user fee (0, tiny, large), lock time, sender / change address (own, foreign, empty), payload, subtract-fee sets. Each returned transaction is decoded and checked: inputs distinct and owned by the selected wallet (and sender address); under automatic selection only unspent, mature, unlocked, not pending-spent, not reserved by an earlier draft of the sequence; outputs multiset = request (fee-bearing ones reduced by equal shares summing to the fee) + at most one change to the requested address else the first input's address; sum(in)-sum(out) == reported fee >= user fee and >= relay minimum of the size after actually signing it; above the user's fee only within the relay minimum of a standard-size transaction; must-succeed / must-fail (insufficient-funds error) regions. One defect found (duplicate explicit inputs) was repaired (fix: 99bd160). Exploration: sampled.",
